@@ -76,6 +76,9 @@ func clipS(s string, n int) string {
 	return s
 }
 
+// F32Close is exported for other reference models.
+func F32Close(got string, want float64) bool { return f32Close(got, want) }
+
 func f32Close(got string, want float64) bool {
 	if !strings.HasPrefix(got, "f32:") {
 		return false
@@ -332,11 +335,11 @@ func GenExifRec(r *core.Rng, o RecOpts) *ExifRec {
 		str("Exif.CameraSerial", serial)
 	}
 	type tsrc struct {
-		key            string
-		date           *dt
-		ms             int
-		hasOff         bool
-		off            int
+		key    string
+		date   *dt
+		ms     int
+		hasOff bool
+		off    int
 	}
 	times := map[string]*tsrc{"ModifyDate()": {key: "ModifyDate()"}, "DateTimeOriginal()": {key: "DateTimeOriginal()"}, "CreateDate()": {key: "CreateDate()"}}
 	if has() {
@@ -559,7 +562,7 @@ func GenExifRec(r *core.Rng, o RecOpts) *ExifRec {
 		dd, md, sd := den(), den(), den()
 		deg := uint32(r.Intn(maxDeg)) * dd
 		min := uint32(r.Intn(60)) * md
-		sec := uint32(r.Intn(60*int(sd)))
+		sec := uint32(r.Intn(60 * int(sd)))
 		if r.Chance(1, 3) { // decimal minutes style: sec 0/1
 			sec, sd = 0, 1
 			min = uint32(r.Intn(60 * int(md)))
